@@ -108,6 +108,11 @@ def use_sites(run, dts, acc_rows, classes) -> int:
                                                     Case(line, "site"), got, "", want))
     run.n_cases += n
     run.dist["use-sites"] += n
+    import translate
+
+    for c, dtn, exc in translate.DTYPE_ANOMALIES[:40]:
+        run.findings.append(Finding("failing-input", f"{c} refuses {['numpy', 'torch', 'jax'][int(dtn.split(':')[0])]} dtype {dtn.split(':')[1]} with {exc}, not with the dtype error",
+                                    Case(f"CELL\t{c}\t{dtn}\terror-class", "cell-error"), exc, "", "DLTypeDtypeError"))
     return n
 
 
